@@ -551,8 +551,11 @@ def proxy_random_cases(rng, n: int) -> list[dict]:
             "port": _join(rng, [rng.choice(["443", "80", "8443", "abc", "8080"]) for _ in range(rng.randint(0, 3))]) if rng.random() < 0.5 else None,
             "prefix": _join(rng, [rng.choice(["/a", "/b/c", "x"]) for _ in range(rng.randint(0, 2))]) if rng.random() < 0.3 else None,
         }
-        if rng.random() < 0.1 and hd["host"]:
-            hd["host"] += rng.choice([",", ", ", ",,"])
+        if rng.random() < 0.12 and hd["host"]:      # empty list elements: at the end, in the middle, in front
+            hd["host"] = rng.choice([hd["host"] + ",", hd["host"] + ", ", hd["host"] + ",,", hd["host"].replace(",", ",,", 1),
+                                     "," + hd["host"], hd["host"].replace(",", ", ,", 1) + " ,"])
+        if rng.random() < 0.05 and hd["port"]:
+            hd["port"] += ","
         env = {"remote": "10.9.9.9", "scheme": rng.choice(["http", "https"]),
                "host": rng.choice([None, "internal:8000", "trusted.example", "evil.example", "internal", ""]),
                "sname": rng.choice(["internal", "::1", "trusted.example", "evil.example"]),
